@@ -5,6 +5,40 @@ from translate import HEADER, REPO, TranslateError
 ANSI_PINNED = (rb"\x1B(\s)?" rb"(" rb"([78ME])" rb"|" rb"((\]\d).*?[\x07])" rb"|" rb"(\[.*?[@-~])" rb"|" rb"(\[.*?[0-9;]m)" rb")")
 
 
+def _equivalent_on_scope(pat_a, flags_a, pat_b, flags_b):
+    """a RESPELLED pattern is accepted as the pinned one when both behave identically -- same match spans, same `sub(b"")` -- on every
+    string of length <= 5 over the bytes that matter to these patterns, and on random longer ones (bounded check: same trust level as the
+    per-run differential of the cleaning function against the real class; the text comparison stays the fast path)"""
+    import itertools, random, re
+    try:
+        a, b = re.compile(pat_a, flags_a), re.compile(pat_b, flags_b)
+    except re.error:
+        return False
+    alpha = [bytes([c]) for c in (0x1B, 0x20, 0x5D, 0x5B, 0x30, 0x39, 0x3B, 0x6D, 0x40, 0x7E, 0x07, 0x0A, 0x61, 0x37, 0x4D)]
+
+    def same(x):
+        ma, mb = a.search(x), b.search(x)
+        return (ma.span() if ma else None) == (mb.span() if mb else None) and a.sub(b"", x) == b.sub(b"", x)
+    for n in range(0, 6):
+        for t in itertools.product(alpha, repeat=n):
+            if not same(b"".join(t)):
+                return False
+    rng = random.Random(1)
+    for _ in range(50000):
+        if not same(b"".join(rng.choice(alpha) for _ in range(rng.randint(6, 40)))):
+            return False
+    return True
+
+
+def _flag_value(text):
+    import re
+    v = 0
+    for part in text.replace(" ", "").split("|"):
+        if part:
+            v |= int(getattr(re, part.split(".")[-1]))
+    return v
+
+
 def _dataclass_defaults(rel, cls):
     out = {}
     for node in ast.walk(ast.parse((REPO / rel).read_text())):
@@ -91,6 +125,12 @@ def generate():
             raise TranslateError(f"BaseChannelArgs.{k} default not found")
     pat, flags = _ansi_source()
     ansi_ok = pat == ANSI_PINNED and flags.replace(" ", "") in ("re.VERBOSE", "re.X")
+    if not ansi_ok:
+        import re as _re
+        try:
+            ansi_ok = _equivalent_on_scope(pat, _flag_value(flags), ANSI_PINNED, int(_re.X))
+        except Exception:       # noqa: BLE001  (unknown flag spelling etc.: not accepted)
+            ansi_ok = False
     body = HEADER.format(src="scrapli/channel/base_channel.py (BaseChannelArgs defaults, ANSI_ESCAPE_PATTERN)")
     body += "namespace Scrapli.Gen.Chan\n"
     body += f"def defaultDepth : Nat := {int(d['comms_prompt_search_depth'])}\n"
@@ -102,7 +142,13 @@ def generate():
     ipat, iflags, imax = _incomplete_source()
     body += ("/-- the hold-back of a sequence cut by a read boundary (`_strip_ansi_read`): the incomplete-sequence pattern text equals the one\n"
              "    `incompleteAfter` mirrors, no flags; `none` = the source has no such pattern (code before the fix) -/\n")
-    body += f"def incompletePatternIsPinned : Bool := {'true' if (ipat == INCOMPLETE_PINNED and not iflags) else 'false'}\n"
+    inc_ok = ipat == INCOMPLETE_PINNED and not iflags
+    if not inc_ok and ipat is not None:
+        try:
+            inc_ok = _equivalent_on_scope(ipat, _flag_value(iflags or ""), INCOMPLETE_PINNED, 0)
+        except Exception:       # noqa: BLE001
+            inc_ok = False
+    body += f"def incompletePatternIsPinned : Bool := {'true' if inc_ok else 'false'}\n"
     body += f"def heldMaxSource : Option Nat := {'none' if imax is None else 'some ' + str(int(imax))}\n"
     fresh = _held_lifecycle()
     body += ("/-- measured on live Channel and AsyncChannel objects: `open()` leaves nothing held back from an earlier session (whether or\n"
